@@ -66,12 +66,12 @@ Proof.
   - intros t r s' H. unfold dslice_adv in H. destruct (dslice_init state (unext f) st) as [[k m]|]; [|discriminate].
     destruct (adv_lagging state (uadv f) t k) as [k1|]; [|discriminate].
     destruct (dslice_loop state (unext f) f (ds_min st) k1 (update_matches state k1 0 [])) as [[[r0 k'] m']|]; inversion H; reflexivity.
-  - intros r s' H. unfold dheap_next in H. destruct (dheap_initialise state (unext f) st) as [[[k h] m]|]; [|discriminate].
-    destruct (dheap_loop state (unext f) f (dh_min st) k h m) as [[[[r0 k'] h'] m']|]; inversion H; reflexivity.
-  - intros t r s' H. unfold dheap_adv in H. destruct (dheap_initialise state (unext f) st) as [[[k h] m]|]; [|discriminate].
-    destruct (dheap_adv_loop state (uadv f) f t k (rev m ++ h) []) as [[[k1 h1] tmp]|]; [|discriminate].
-    destruct (heap_update_matches (rev tmp ++ h1)) as [h2 m2].
-    destruct (dheap_loop state (unext f) f (dh_min st) k1 h2 m2) as [[[[r0 k'] h'] m']|]; inversion H; reflexivity.
+  - intros r s' H. unfold dheap_next in H. destruct (dheap_initialise state (unext f) st) as [[h m]|]; [|discriminate].
+    destruct (dheap_loop state (unext f) f (dh_min st) h m) as [[[r0 h'] m']|]; inversion H; reflexivity.
+  - intros t r s' H. unfold dheap_adv in H. destruct (dheap_initialise state (unext f) st) as [[h m]|]; [|discriminate].
+    destruct (dheap_adv_loop state (uadv f) f t (rev m ++ h) []) as [[h1 tmp]|]; [|discriminate].
+    destruct (heap_update_matches state (rev tmp ++ h1)) as [h2 m2].
+    destruct (dheap_loop state (unext f) f (dh_min st) h2 m2) as [[[r0 h'] m']|]; inversion H; reflexivity.
   - intros r s' H. destruct (bool_next state (unext f) (uadv f) umin f st) as [[r0 a]|]; inversion H; reflexivity.
   - intros t r s' H. destruct (bool_adv state (unext f) (uadv f) umin f st t) as [[r0 a]|]; inversion H; reflexivity.
   - intros r s' H. destruct (filt_next state (unext f) (uadv f) f st) as [[r0 a]|] eqn:E; inversion H; subst.
@@ -92,7 +92,7 @@ Qed.
 Theorem ustep_ok : forall d, cursor_ok state unext uadv (Rep d).
 Proof.
   induction d as [|d [IHa [IHn IHv]]].
-  - split; [|split]; intros k p; try intro t; intros [].
+  - split; [intros k p []|split; [intros k p []|intros k p t []]].
   - assert (forall f k r k', unext f k = Some (r, k') -> umin k' = umin k) as Hmn by (intros f k; apply (proj1 (umin_step f k))).
     assert (forall f k t r k', uadv f k t = Some (r, k') -> umin k' = umin k) as Hma by (intros f k; apply (proj2 (umin_step f k))).
     pose proof (conj_cursor state unext uadv (Rep d) IHa IHn IHv) as [Ca [Cn Cv]].
@@ -203,7 +203,7 @@ Section BuildRep.
       + cbn in Hd, Hwf. apply build_rep; [lia|tauto].
       + apply IHr; cbn in Hd, Hwf; [lia|tauto].
     - (* DisjH *)
-      exists (map denote ts). split; [reflexivity|]. cbn [dh_init dh_kids].
+      exists (map denote ts). split; [reflexivity|]. cbn [dh_init dh_searchers].
       cbn [depth] in Hd. apply le_S_n in Hd. cbn [wf] in Hwf.
       induction ts as [|c r IHr]; cbn; constructor.
       + cbn in Hd, Hwf. apply build_rep; [lia|tauto].
